@@ -15,5 +15,7 @@ P_create  == [s \in {1, 2} |-> IF s = 1 THEN <<PutR("g", "none", "c2")>> ELSE <<
 \* deletes that version: the compare-and-swap must still look at the hub's CURRENT hash
 P_writeback == [s \in {1, 2} |-> IF s = 1 THEN <<PutR("f", "c1", "c2")>> ELSE <<PutR("f", "c1", "c1"), GetR("f")>>]
 P_delwb   == [s \in {1, 2} |-> IF s = 1 THEN <<DelR("f", "c1")>> ELSE <<PutR("f", "c1", "c1"), GetR("f")>>]
+\* three servers: a chain of compare-and-swaps (1: c1->c2, 2: c2->c3) racing a delete that expects c2, then a read
+P_casrace3 == [s \in {1, 2, 3} |-> CASE s = 1 -> <<PutR("f", "c1", "c2")>> [] s = 2 -> <<PutR("f", "c2", "c3")>> [] OTHER -> <<DelR("f", "c2"), GetR("f")>>]
 c_Init0 == (Live("f") :> "c1")
 =============================================================================
